@@ -475,9 +475,11 @@ func readKnown(verif string) *KnownFile {
 	return k
 }
 
+// find: a recorded finding is identified by the obligation (call site / clause) that fails; the
+// same obligation can belong to several properties.
 func (k *KnownFile) find(prop, obl string) *KnownFinding {
 	for i := range k.Findings {
-		if k.Findings[i].Property == prop && k.Findings[i].Obligation == obl {
+		if k.Findings[i].Obligation == obl {
 			return &k.Findings[i]
 		}
 	}
